@@ -17,15 +17,14 @@ MANIFEST = {
     'design': 'DESIGN.md §3 C14',
     'technique': 'Lean 4 proof (truth tables by case analysis, lanes by induction; element functions regenerated from the source by a translator and re-proved by decide) + model/code correspondence',
     'note': 'Trusted: Lean kernel; hand-written model Model/Logic3.lean (checked against the code by the correspondence run); '
-            'NumPy axis handling. Empty-lane corner under a scalar True mask is known finding KF-C14-1.',
+            'NumPy axis handling.',
 }
 RULE = ('exhaustive arrays over {True, False, masked} (quick: 1-D to length 4, 2-D to 2x2; thorough: 1-D to length 7, '
         '2-D to 2x3) x every mask representation x every axis argument for the reductions; generated operand pairs '
         'for element operators and comparisons; a case is non-trivial when at least one element is masked or the '
         'operands broadcast; distinct = distinct request line')
 ASSUMPTIONS = ['axis arguments are normalised by NumPy (np.any/np.all), the model receives normalised axes',
-               'tvl_any/tvl_all on an EMPTY lane under a scalar True mask answer "masked" (representation-dependent '
-               'corner, excluded from the theorems by hypothesis xs != [] and recorded as known finding KF-C14-1)']
+               'any()/all() over an EMPTY lane are judged under C13 (KF-C13-1), not here']
 
 T, F, M = 't', 'f', 'm'
 
